@@ -11,6 +11,12 @@ if r.returncode != 0:
     r = subprocess.run(["git", "-C", "/repo", "apply", patch])
     if r.returncode != 0:
         print("PATCH DOES NOT APPLY"); sys.exit(2)
+import os, shutil
+saved = {}
+for i in ids:
+    f = "/verif/evidence/%s.json" % i
+    if os.path.exists(f):
+        saved[f] = open(f, "rb").read()
 try:
     for i in ids:
         p = subprocess.run("cd /verif && ./check %s --tier quick" % i, shell=True, stdout=subprocess.PIPE, stderr=subprocess.STDOUT)
@@ -24,4 +30,6 @@ try:
             for l in out.split("\n")[-12:]: print("     | " + l[:300])
 finally:
     sh("git -C /repo reset -q --hard")
+    for f, b in saved.items():          # the evidence of a seeded run is not evidence about /repo
+        open(f, "wb").write(b)
     print("repo restored:", sh("git -C /repo status --porcelain --untracked-files=no").strip() == "")
